@@ -12,9 +12,12 @@
    Faithful includes the behaviour that violates C11 (DESIGN.md section 6):
      * a context applied because of a node's @type is parsed with the public
        Context.Parse (propagate = true) and never reverted when the walk descends
-       into a nested node (D8);
-     * a numeric segment is copied into the result without looking at the document;
-       the walk then continues in element 0 of the array (D14).
+       into a nested node (D8, known finding);
+     * an array reached WITHOUT a numeric segment is entered through member 0 whatever
+       its length (D31, known finding); a numeric segment on a one-member array is
+       accepted although the stored entry carries no index.
+   Since fix 8c11b39 (D14) a numeric segment must address an array, be in range, and
+   the walk continues in the selected member.
    The dotted path is given already split at "." (strings.Split). *)
 From Coq Require Import ZArith List String Ascii Bool Arith.
 From GSP Require Import Base.Prelude RDF.Model JsonLD.Model.
@@ -62,8 +65,18 @@ Fixpoint pfd (ld : loader) (pi : list string) (G : option ctx) (doc : json) (acc
   | term :: rest =>
       if is_num term then
         if Z.leb (num_val term) max_int32 then
-          more <- pfd ld rest G doc true ;;
-          Ok (PInt (num_val term) :: more)
+          (* fix 8c11b39: the segment must address an array of the document and be in range;
+             the walk continues in the selected member *)
+          match doc with
+          | JArr l =>
+              match nth_error l (Z.to_nat (num_val term)) with
+              | Some x =>
+                  more <- pfd ld rest G x false ;;
+                  Ok (PInt (num_val term) :: more)
+              | None => Err "index-out-of-range"
+              end
+          | _ => Err "not-an-array"
+          end
         else Err "parse-int"
       else
         m <- resolver_object doc accept ;;
